@@ -874,7 +874,7 @@ def _reset_stop():
     LAST_STOP = None
 
 
-def translate(name, params, ptypes, ret_type, body, consts, extern_types=None, drop_params=(), eff=False, prefix=False, havoc=False, skip_setters=False, rest_args=(), out_params=()):
+def translate(name, params, ptypes, ret_type, body, consts, extern_types=None, drop_params=(), eff=False, prefix=False, havoc=False, skip_setters=False, rest_args=(), out_params=(), keep_unnamed=False):
     """-> Coq source of `Definition gen_<name> ...`.  params/ptypes from the C++ declaration."""
     _reset_stop()
     c = Ctx(name, consts, ret_type in BOOL_TYPES, extern_types)
@@ -886,9 +886,13 @@ def translate(name, params, ptypes, ret_type, body, consts, extern_types=None, d
     c.body_text = repr(body)
     plist = []
     c.params = set(params)
-    for p, t in zip(params, ptypes):
-        if p in drop_params or p == '_' or not p:
+    for i, (p, t) in enumerate(zip(params, ptypes)):
+        if p in drop_params:
             continue
+        if p == '_' or not p:
+            if not keep_unnamed:
+                continue
+            p = 'unnamed%d' % (i + 1)      # an unnamed (unused) parameter keeps its place: the signature does not change when the code starts using it
         ty = 'bool' if t in BOOL_TYPES else 'N'
         c.types[p] = ty
         plist.append((ident(p), ty))
